@@ -681,7 +681,7 @@ TRIGGERS = {
     "swap_if_else": "def f(x):\n    if x:\n        pass\n    else:\n        print('no')\n    if not x:\n        print('1')\n    else:\n        print('2')\n        print('3')\n        print('4')\n    if x == 2:\n        a = 1\n    else:\n        a = 2\n        a += 1\n        a += 2\n        a *= 3\n    return a\n\n\nprint(f(0), f(1), f(2))\n",
     "early_return": "def f(x):\n    if x > 10:\n        x += 1\n        x *= 12\n        print(x > 30)\n        y = 100 - x\n    else:\n        y = 13\n    return y\n\n\ndef g(x):\n    r = 0\n    if x:\n        r = 1\n        print('a')\n        print('b')\n        print('c')\n    return r\n\n\nprint(f(11), f(1), g(0), g(1))\n",
     "early_continue": "def f(xs):\n    out = []\n    for x in xs:\n        if x % 2:\n            out.append(x)\n            out.append(x + 1)\n            out.append(x + 2)\n    for x in xs:\n        if x > 1:\n            print(x)\n            print(x * 2)\n            print(x * 3)\n        else:\n            print('small')\n    return out\n\n\nprint(f([1, 2, 3]))\n",
-    "redundant_enumerate": "xs = [4, 5, 6]\nfor i, x in enumerate(xs):\n    print(x)\nfor i, x in enumerate(xs):\n    print(i)\nprint([x for i, x in enumerate(xs)], [i for i, x in enumerate(xs)], [i for i, _ in enumerate(xs, 2)])\n",
+    "redundant_enumerate": "xs = [4, 5, 6]\nfor i, x in enumerate(xs):\n    print(x)\nfor i, x in enumerate(xs):\n    print(i)\nprint([x for i, x in enumerate(xs)], [i for i, x in enumerate(xs)], [i for i, _ in enumerate(xs, 2)])\nfor i, _ in enumerate(xs):\n    print(i)\nfor _, x in enumerate(xs):\n    print(x)\nprint([i for i, _ in enumerate(xs)], [x for _, x in enumerate(xs)])\n",
     "unused_zip_args": "xs = [1, 2, 3]\nys = [4, 5]\nfor x, _ in zip(xs, ys):\n    print(x)\nprint([y for _, y in zip(xs, ys)], [x for x, y in zip(xs, ys)])\n",
     "map_filter_lambda": "xs = [1, 2, 3, 0]\nprint(list(map(lambda x: x + 1, xs)), list(filter(lambda x: x > 1, xs)), list(filter(None, xs)))\nm = map(lambda x: print('lazy', x), xs)\nprint('before')\nlist(m)\nprint(sum(map(lambda x: x * x, xs)), list(map(lambda x, y: x + y, xs, xs)))\n",
     "replace_with_filter": "def f(xs):\n    out = []\n    for x in xs:\n        if x:\n            out.append(x)\n    for x in xs:\n        if not x:\n            continue\n        out.append(-x)\n    return out\n\n\nprint(f([0, 1, 2]))\n",
